@@ -340,6 +340,19 @@ theorem cited_theorems_exist :
       parseSymmetric_never_panics, chainLoop_never_panics, hookChain_never_panics,
       decodeString_never_panics, normalize_never_panics, decodeCertificates_terminates]) = true := by decide +kernel
 
+/-- The dapr/kit functions that panic on part of their domain (closed under "hands its own parameter
+on without a `switch` on it") are exactly the two table look-ups of package crypto and the six
+unexported helpers that call `expectedKeySize(algorithm)`: no exported entry point is partial, and
+every call to one of the eight is an inventory site that needs its `switch algorithm case …` guard.
+Hoisting such a call out of its case clause changes this list or loses the guard. -/
+theorem partial_functions_are_internal :
+    Generated.C07.partialFunctions.map (·.1) =
+      ["github.com/dapr/kit/crypto.decryptSymmetricAESCBC", "github.com/dapr/kit/crypto.decryptSymmetricAESGCM",
+       "github.com/dapr/kit/crypto.decryptSymmetricAESKW", "github.com/dapr/kit/crypto.encryptSymmetricAESCBC",
+       "github.com/dapr/kit/crypto.encryptSymmetricAESGCM", "github.com/dapr/kit/crypto.encryptSymmetricAESKW",
+       "github.com/dapr/kit/crypto.expectedKeySize", "github.com/dapr/kit/crypto.getSHAHash"] ∧
+    Generated.C07.reachableFiles = ["crypto/crypto.go"] := by decide +kernel
+
 /-- The two documented programmer-misuse panics that live in the anchored files (`NewParser` with
 two optionals, `cipher.AEAD` `Seal` with a wrong-size nonce) are in the table as such, and nothing
 else is excused that way — in particular not `Open`, whose nonce is an input. -/
